@@ -136,7 +136,8 @@ def v1_children_map_builders(ctx) -> None:
         for g in walk_local(loop):
             if isinstance(g, ast.GeneratorExp) and len(g.generators) == 1 and norm(g.generators[0].iter) == f"{child}.extra_parameters":
                 cp = norm(g.generators[0].target)
-                if PT.find_all(g.elt, "map(_M_pp.__getitem__, _M_inv[_M_cp])", {"_M_pp": ppos, "_M_inv": inv_name, "_M_cp": cp}, local=False):
+                if PT.find_all(g.elt, "map(_M_pp.__getitem__, _M_inv[_M_cp])", {"_M_pp": ppos, "_M_inv": inv_name, "_M_cp": cp}, local=False) or \
+                        PT.find_all(g.elt, "(_M_pp[_M_x] for _M_x in _M_inv[_M_cp])", {"_M_pp": ppos, "_M_inv": inv_name, "_M_cp": cp}, local=False):
                     okc = True
         if okc:
             ctx.ok("V1", f"{m.qualname}: for each position of the child's own parameters, the parent positions of the names mapped onto it")
@@ -709,7 +710,7 @@ def v7_zeroes(ctx) -> None:
         tb = norm(gens[0].generators[0].target)
         e = gens[0].elt
         if isinstance(e, ast.BinOp) and isinstance(e.op, ast.Sub):
-            l, r = norm(e.left), norm(e.right)
+            l, r = norm(D.expanded(f, e.left)), norm(e.right)
             ok_l = l in ("frozenset(parent.extra_parameters)", "set(parent.extra_parameters)")
             ok_r = r in (f"frozenset({tb}.keys())", f"set({tb}.keys())", f"frozenset({tb})", f"set({tb})", f"{tb}.keys()")
             ok = ok_l and ok_r
